@@ -241,6 +241,108 @@ fn part_b(out: &mut Out, e: &mut Engine) {
     out.cells.push("call-protocol".to_string());
 }
 
+
+// ---- (d) argument routing: a host function of every arity 0..16 (plain, &self method, &mut self method) must receive the k-th
+//          argument of the call in its k-th parameter – distinct values per position, also through apply
+static ROUTED: std::sync::Mutex<Vec<i64>> = std::sync::Mutex::new(Vec::new());
+#[derive(Clone)]
+struct Rec {
+    tag: i64,
+}
+impl steel::rvals::Custom for Rec {}
+
+fn part_d(out: &mut Out, e: &mut Engine) {
+    e.register_fn("make-rec", || Rec { tag: 7 });
+
+    e.register_fn("route0", || -> i64 { *ROUTED.lock().unwrap() = vec![]; 0 });
+    e.register_fn("route1", |a: i64| -> i64 { *ROUTED.lock().unwrap() = vec![a]; 1 });
+    e.register_fn("route2", |a: i64, b: i64| -> i64 { *ROUTED.lock().unwrap() = vec![a, b]; 2 });
+    e.register_fn("route3", |a: i64, b: i64, c: i64| -> i64 { *ROUTED.lock().unwrap() = vec![a, b, c]; 3 });
+    e.register_fn("route4", |a: i64, b: i64, c: i64, d: i64| -> i64 { *ROUTED.lock().unwrap() = vec![a, b, c, d]; 4 });
+    e.register_fn("route5", |a: i64, b: i64, c: i64, d: i64, e: i64| -> i64 { *ROUTED.lock().unwrap() = vec![a, b, c, d, e]; 5 });
+    e.register_fn("route6", |a: i64, b: i64, c: i64, d: i64, e: i64, f: i64| -> i64 { *ROUTED.lock().unwrap() = vec![a, b, c, d, e, f]; 6 });
+    e.register_fn("route7", |a: i64, b: i64, c: i64, d: i64, e: i64, f: i64, g: i64| -> i64 { *ROUTED.lock().unwrap() = vec![a, b, c, d, e, f, g]; 7 });
+    e.register_fn("route8", |a: i64, b: i64, c: i64, d: i64, e: i64, f: i64, g: i64, h: i64| -> i64 { *ROUTED.lock().unwrap() = vec![a, b, c, d, e, f, g, h]; 8 });
+    e.register_fn("route9", |a: i64, b: i64, c: i64, d: i64, e: i64, f: i64, g: i64, h: i64, i: i64| -> i64 { *ROUTED.lock().unwrap() = vec![a, b, c, d, e, f, g, h, i]; 9 });
+    e.register_fn("route10", |a: i64, b: i64, c: i64, d: i64, e: i64, f: i64, g: i64, h: i64, i: i64, j: i64| -> i64 { *ROUTED.lock().unwrap() = vec![a, b, c, d, e, f, g, h, i, j]; 10 });
+    e.register_fn("route11", |a: i64, b: i64, c: i64, d: i64, e: i64, f: i64, g: i64, h: i64, i: i64, j: i64, k: i64| -> i64 { *ROUTED.lock().unwrap() = vec![a, b, c, d, e, f, g, h, i, j, k]; 11 });
+    e.register_fn("route12", |a: i64, b: i64, c: i64, d: i64, e: i64, f: i64, g: i64, h: i64, i: i64, j: i64, k: i64, l: i64| -> i64 { *ROUTED.lock().unwrap() = vec![a, b, c, d, e, f, g, h, i, j, k, l]; 12 });
+    e.register_fn("route13", |a: i64, b: i64, c: i64, d: i64, e: i64, f: i64, g: i64, h: i64, i: i64, j: i64, k: i64, l: i64, m: i64| -> i64 { *ROUTED.lock().unwrap() = vec![a, b, c, d, e, f, g, h, i, j, k, l, m]; 13 });
+    e.register_fn("route14", |a: i64, b: i64, c: i64, d: i64, e: i64, f: i64, g: i64, h: i64, i: i64, j: i64, k: i64, l: i64, m: i64, n: i64| -> i64 { *ROUTED.lock().unwrap() = vec![a, b, c, d, e, f, g, h, i, j, k, l, m, n]; 14 });
+    e.register_fn("route15", |a: i64, b: i64, c: i64, d: i64, e: i64, f: i64, g: i64, h: i64, i: i64, j: i64, k: i64, l: i64, m: i64, n: i64, o: i64| -> i64 { *ROUTED.lock().unwrap() = vec![a, b, c, d, e, f, g, h, i, j, k, l, m, n, o]; 15 });
+    e.register_fn("route16", |a: i64, b: i64, c: i64, d: i64, e: i64, f: i64, g: i64, h: i64, i: i64, j: i64, k: i64, l: i64, m: i64, n: i64, o: i64, p: i64| -> i64 { *ROUTED.lock().unwrap() = vec![a, b, c, d, e, f, g, h, i, j, k, l, m, n, o, p]; 16 });
+    e.register_fn("sroute1", |s: &Rec, a: i64| -> i64 { *ROUTED.lock().unwrap() = vec![a]; s.tag });
+    e.register_fn("mroute1", |s: &mut Rec, a: i64| -> i64 { *ROUTED.lock().unwrap() = vec![a]; s.tag });
+    e.register_fn("sroute2", |s: &Rec, a: i64, b: i64| -> i64 { *ROUTED.lock().unwrap() = vec![a, b]; s.tag });
+    e.register_fn("mroute2", |s: &mut Rec, a: i64, b: i64| -> i64 { *ROUTED.lock().unwrap() = vec![a, b]; s.tag });
+    e.register_fn("sroute3", |s: &Rec, a: i64, b: i64, c: i64| -> i64 { *ROUTED.lock().unwrap() = vec![a, b, c]; s.tag });
+    e.register_fn("mroute3", |s: &mut Rec, a: i64, b: i64, c: i64| -> i64 { *ROUTED.lock().unwrap() = vec![a, b, c]; s.tag });
+    e.register_fn("sroute4", |s: &Rec, a: i64, b: i64, c: i64, d: i64| -> i64 { *ROUTED.lock().unwrap() = vec![a, b, c, d]; s.tag });
+    e.register_fn("mroute4", |s: &mut Rec, a: i64, b: i64, c: i64, d: i64| -> i64 { *ROUTED.lock().unwrap() = vec![a, b, c, d]; s.tag });
+    e.register_fn("sroute5", |s: &Rec, a: i64, b: i64, c: i64, d: i64, e: i64| -> i64 { *ROUTED.lock().unwrap() = vec![a, b, c, d, e]; s.tag });
+    e.register_fn("mroute5", |s: &mut Rec, a: i64, b: i64, c: i64, d: i64, e: i64| -> i64 { *ROUTED.lock().unwrap() = vec![a, b, c, d, e]; s.tag });
+    e.register_fn("sroute6", |s: &Rec, a: i64, b: i64, c: i64, d: i64, e: i64, f: i64| -> i64 { *ROUTED.lock().unwrap() = vec![a, b, c, d, e, f]; s.tag });
+    e.register_fn("mroute6", |s: &mut Rec, a: i64, b: i64, c: i64, d: i64, e: i64, f: i64| -> i64 { *ROUTED.lock().unwrap() = vec![a, b, c, d, e, f]; s.tag });
+    e.register_fn("sroute7", |s: &Rec, a: i64, b: i64, c: i64, d: i64, e: i64, f: i64, g: i64| -> i64 { *ROUTED.lock().unwrap() = vec![a, b, c, d, e, f, g]; s.tag });
+    e.register_fn("mroute7", |s: &mut Rec, a: i64, b: i64, c: i64, d: i64, e: i64, f: i64, g: i64| -> i64 { *ROUTED.lock().unwrap() = vec![a, b, c, d, e, f, g]; s.tag });
+    e.register_fn("sroute8", |s: &Rec, a: i64, b: i64, c: i64, d: i64, e: i64, f: i64, g: i64, h: i64| -> i64 { *ROUTED.lock().unwrap() = vec![a, b, c, d, e, f, g, h]; s.tag });
+    e.register_fn("mroute8", |s: &mut Rec, a: i64, b: i64, c: i64, d: i64, e: i64, f: i64, g: i64, h: i64| -> i64 { *ROUTED.lock().unwrap() = vec![a, b, c, d, e, f, g, h]; s.tag });
+    e.register_fn("sroute9", |s: &Rec, a: i64, b: i64, c: i64, d: i64, e: i64, f: i64, g: i64, h: i64, i: i64| -> i64 { *ROUTED.lock().unwrap() = vec![a, b, c, d, e, f, g, h, i]; s.tag });
+    e.register_fn("mroute9", |s: &mut Rec, a: i64, b: i64, c: i64, d: i64, e: i64, f: i64, g: i64, h: i64, i: i64| -> i64 { *ROUTED.lock().unwrap() = vec![a, b, c, d, e, f, g, h, i]; s.tag });
+    e.register_fn("sroute10", |s: &Rec, a: i64, b: i64, c: i64, d: i64, e: i64, f: i64, g: i64, h: i64, i: i64, j: i64| -> i64 { *ROUTED.lock().unwrap() = vec![a, b, c, d, e, f, g, h, i, j]; s.tag });
+    e.register_fn("mroute10", |s: &mut Rec, a: i64, b: i64, c: i64, d: i64, e: i64, f: i64, g: i64, h: i64, i: i64, j: i64| -> i64 { *ROUTED.lock().unwrap() = vec![a, b, c, d, e, f, g, h, i, j]; s.tag });
+    e.register_fn("sroute11", |s: &Rec, a: i64, b: i64, c: i64, d: i64, e: i64, f: i64, g: i64, h: i64, i: i64, j: i64, k: i64| -> i64 { *ROUTED.lock().unwrap() = vec![a, b, c, d, e, f, g, h, i, j, k]; s.tag });
+    e.register_fn("mroute11", |s: &mut Rec, a: i64, b: i64, c: i64, d: i64, e: i64, f: i64, g: i64, h: i64, i: i64, j: i64, k: i64| -> i64 { *ROUTED.lock().unwrap() = vec![a, b, c, d, e, f, g, h, i, j, k]; s.tag });
+    e.register_fn("sroute12", |s: &Rec, a: i64, b: i64, c: i64, d: i64, e: i64, f: i64, g: i64, h: i64, i: i64, j: i64, k: i64, l: i64| -> i64 { *ROUTED.lock().unwrap() = vec![a, b, c, d, e, f, g, h, i, j, k, l]; s.tag });
+    e.register_fn("mroute12", |s: &mut Rec, a: i64, b: i64, c: i64, d: i64, e: i64, f: i64, g: i64, h: i64, i: i64, j: i64, k: i64, l: i64| -> i64 { *ROUTED.lock().unwrap() = vec![a, b, c, d, e, f, g, h, i, j, k, l]; s.tag });
+    e.register_fn("sroute13", |s: &Rec, a: i64, b: i64, c: i64, d: i64, e: i64, f: i64, g: i64, h: i64, i: i64, j: i64, k: i64, l: i64, m: i64| -> i64 { *ROUTED.lock().unwrap() = vec![a, b, c, d, e, f, g, h, i, j, k, l, m]; s.tag });
+    e.register_fn("mroute13", |s: &mut Rec, a: i64, b: i64, c: i64, d: i64, e: i64, f: i64, g: i64, h: i64, i: i64, j: i64, k: i64, l: i64, m: i64| -> i64 { *ROUTED.lock().unwrap() = vec![a, b, c, d, e, f, g, h, i, j, k, l, m]; s.tag });
+    e.register_fn("sroute14", |s: &Rec, a: i64, b: i64, c: i64, d: i64, e: i64, f: i64, g: i64, h: i64, i: i64, j: i64, k: i64, l: i64, m: i64, n: i64| -> i64 { *ROUTED.lock().unwrap() = vec![a, b, c, d, e, f, g, h, i, j, k, l, m, n]; s.tag });
+    e.register_fn("mroute14", |s: &mut Rec, a: i64, b: i64, c: i64, d: i64, e: i64, f: i64, g: i64, h: i64, i: i64, j: i64, k: i64, l: i64, m: i64, n: i64| -> i64 { *ROUTED.lock().unwrap() = vec![a, b, c, d, e, f, g, h, i, j, k, l, m, n]; s.tag });
+    e.register_fn("sroute15", |s: &Rec, a: i64, b: i64, c: i64, d: i64, e: i64, f: i64, g: i64, h: i64, i: i64, j: i64, k: i64, l: i64, m: i64, n: i64, o: i64| -> i64 { *ROUTED.lock().unwrap() = vec![a, b, c, d, e, f, g, h, i, j, k, l, m, n, o]; s.tag });
+    e.register_fn("mroute15", |s: &mut Rec, a: i64, b: i64, c: i64, d: i64, e: i64, f: i64, g: i64, h: i64, i: i64, j: i64, k: i64, l: i64, m: i64, n: i64, o: i64| -> i64 { *ROUTED.lock().unwrap() = vec![a, b, c, d, e, f, g, h, i, j, k, l, m, n, o]; s.tag });
+
+    let _ = e.run("(define the-rec (make-rec))".to_string());
+    for n in 0..=16usize {
+        for (family, selfarg, lo, hi, ret) in [("route", "", 0usize, 16usize, None), ("sroute", "the-rec ", 1, 15, Some(7i64)), ("mroute", "the-rec ", 1, 15, Some(7i64))] {
+            if n < lo || n > hi {
+                continue;
+            }
+            // two value assignments: ascending and descending, so that a duplicated or swapped index is visible in either
+            for variant in 0..2 {
+                let vals: Vec<i64> = (0..n).map(|i| if variant == 0 { 101 + i as i64 } else { 900 - 7 * i as i64 }).collect();
+                let args: Vec<String> = vals.iter().map(|v| v.to_string()).collect();
+                for shape in 0..2 {
+                    let code = if shape == 0 { format!("({}{} {}{})", family, n, selfarg, args.join(" ")) } else { format!("(apply {}{} (list {}{}))", family, n, selfarg, args.join(" ")) };
+                    ROUTED.lock().unwrap().clear();
+                    ROUTED.lock().unwrap().push(-1);
+                    let r = show(run1(e, &code));
+                    let want_ret = format!("(i {})", ret.unwrap_or(n as i64));
+                    out.check("d-result", code.clone(), want_ret, r);
+                    let got = ROUTED.lock().unwrap().clone();
+                    out.check("d-routing", format!("parameters received by the host body for {}", code), format!("{:?}", vals), format!("{:?}", got));
+                }
+            }
+            // one argument too few / too many: error, body not entered
+            for delta in [-1i64, 1] {
+                let m = n as i64 + delta;
+                if m < 0 {
+                    continue;
+                }
+                let args: Vec<String> = (0..m).map(|i| (i + 1).to_string()).collect();
+                let code = format!("({}{} {}{})", family, n, selfarg, args.join(" "));
+                ROUTED.lock().unwrap().clear();
+                ROUTED.lock().unwrap().push(-1);
+                let r = show(run1(e, &code));
+                out.check("d-arity", code.clone(), "ERR".to_string(), r);
+                let got = ROUTED.lock().unwrap().clone();
+                out.check("d-arity-entered", format!("host body entered by {}", code), "[-1]".to_string(), format!("{:?}", got));
+            }
+        }
+    }
+    out.cells.push("argument-routing".to_string());
+}
+
 // ---- (c) lent references
 struct Counter {
     value: usize,
@@ -411,6 +513,10 @@ pub fn main(_args: &[String]) {
             if part == "all" || part == "b" {
                 let mut e = Engine::new();
                 part_b(&mut out, &mut e);
+            }
+            if part == "all" || part == "d" {
+                let mut e = Engine::new();
+                part_d(&mut out, &mut e);
             }
             if part == "all" || part == "c" {
                 part_c(&mut out);
